@@ -201,7 +201,7 @@ PROPS = {
     },
     'C13': {
         'lib': LIB + ['Spec/ScanRef', 'Spec/ScanAuto', 'Check/Scan', 'Check/C19', 'Check/C13'],
-        'syn': ['Props/C13'], 'needs_syn': ['Syn/Set1', 'Syn/Set2', 'Check/C13'],
+        'syn': ['Props/C13', 'Props/E2E'], 'needs_syn': ['Syn/Set1', 'Syn/Set2', 'Check/C13', 'Seq'],
         'ext': ['Props/C13_ext'], 'needs_ext': ['ExtI/Scan', 'Check/C13'],
         'corr': ['Corr/Set1', 'Corr/Set2'], 'needs_corr': ['Syn/Set1', 'Syn/Set2', 'ExtI/Scan'],
         'cex_ext': 'Cex/C13_ext', 'cex_syn': 'Cex/C13_syn',
